@@ -504,3 +504,55 @@ void h_ratom_read_bounded(void)
 	__CPROVER_assert(0, "canary");
 #endif
 }
+
+/* ================================================================== ratom_match: anchors, word boundaries, any-character (C10) */
+/* full domain over a window of the subject line: 3 bytes of left context (ASCII), the character
+ * under the match position (any well-formed character of 1..2 bytes or the terminator), all flag
+ * combinations.  "A reported match really matches in that context." */
+#define RM_WORD(c)	(((c) >= 'a' && (c) <= 'z') || ((c) >= 'A' && (c) <= 'Z') || ((c) >= '0' && (c) <= '9') || (c) == '_' || (c) > 127)
+void h_ratom_anchor(void)
+{
+	unsigned char w[8];
+	struct ratom ra;
+	struct rstate rs;
+	int k = nondet_int(), i, flg = nondet_int(), kind = nondet_int();
+	for (i = 0; i < 7; i++)
+		w[i] = nondet_uchar();
+	w[7] = 0;
+	__CPROVER_assume(0 <= k && k <= 3);
+	/* left context: ASCII bytes, none of them the terminator */
+	for (i = 0; i < 3; i++)
+		__CPROVER_assume(w[i] != 0 && w[i] < 0x80);
+	/* the character at the position: terminator, ASCII, or a two-byte character */
+	__CPROVER_assume(w[3] < 0x80 || ((w[3] & 0xe0) == 0xc0 && (w[4] & 0xc0) == 0x80));
+	__CPROVER_assume(kind == RA_BEG || kind == RA_END || kind == RA_WBEG || kind == RA_WEND || kind == RA_ANY);
+	__CPROVER_assume((flg & ~(REG_ICASE | REG_NEWLINE | REG_NOTBOL | REG_NOTEOL)) == 0);
+	ra.ra = kind; ra.s = 0;
+	rs.o = (char *) w + (3 - k);	/* the line starts k bytes before the position */
+	rs.s = (char *) w + 3;
+	rs.flg = flg; rs.pc = 0; rs.dep = 0;
+	int r = ratom_match(&ra, &rs);
+	int at_start = k == 0;
+	unsigned char cur = w[3], prev = w[2];
+	int clen = cur < 0x80 ? 1 : 2;
+	if (kind == RA_BEG) {
+		H_ASSERT((r == 0) == ((at_start && !(flg & REG_NOTBOL)) || (!at_start && prev == '\n' && (flg & REG_NEWLINE))), "ratom_match: ^ matches at the true start of the line (not when the caller says this is not the line start), or after a newline in newline mode");
+		H_ASSERT(rs.s == (char *) w + 3, "ratom_match: an anchor consumes nothing");
+	} else if (kind == RA_END) {
+		H_ASSERT((r == 0) == ((cur == 0 && !(flg & REG_NOTEOL)) || (cur == '\n' && (flg & REG_NEWLINE))), "ratom_match: $ matches at the end of the line (unless the caller says this is not the line end), or before a newline in newline mode");
+		H_ASSERT(rs.s == (char *) w + 3, "ratom_match: an anchor consumes nothing");
+	} else if (kind == RA_WBEG) {
+		H_ASSERT((r == 0) == ((at_start || !RM_WORD(prev)) && cur != 0 && RM_WORD(cur)), "ratom_match: \\< matches where a word character follows and none precedes");
+		H_ASSERT(rs.s == (char *) w + 3, "ratom_match: a word boundary consumes nothing");
+	} else if (kind == RA_WEND) {
+		H_ASSERT((r == 0) == (!at_start && RM_WORD(prev) && (cur == 0 || !RM_WORD(cur))), "ratom_match: \\> matches where a word character precedes and none follows");
+		H_ASSERT(rs.s == (char *) w + 3, "ratom_match: a word boundary consumes nothing");
+	} else {
+		H_ASSERT((r == 0) == (cur != 0 && !(cur == '\n' && (flg & REG_NEWLINE))), "ratom_match: . matches any character except the terminator (and the newline in newline mode)");
+		if (r == 0)
+			H_ASSERT(rs.s == (char *) w + 3 + clen, "ratom_match: . consumes exactly one character");
+	}
+#ifdef CANARY
+	__CPROVER_assert(0, "canary");
+#endif
+}
